@@ -156,6 +156,53 @@ class Decision(object):
                 raise Undecidable(norm_stmt(st)[:60])
 
 
+def stale_item_value_rule(rep, rid, fi):
+    """A local computed from the current item of a loop (its definition mentions the loop variable and is not an
+    accumulator) must be recomputed for every item: no use of it inside the loop is reachable from the loop head
+    without passing one of its definitions - otherwise the value of the PREVIOUS item is used."""
+    cfg = cfg_of(fi)
+    n = 0
+    for L in walk_no_nested(fi.node):
+        if not isinstance(L, ast.For):
+            continue
+        lvars = {t.id for t in ast.walk(L.target) if isinstance(t, ast.Name)}
+        heads = [x for x in cfg.nodes if x.kind == "for" and x.stmt is L]
+        if not heads or not lvars:
+            continue
+        inloop = lambda node: any(node.stmt is st or any(node.stmt is y for y in ast.walk(st)) for st in L.body)
+        defs = {}
+        for a in ast.walk(L):
+            if a is L:
+                continue
+            if isinstance(a, ast.Assign) and len(a.targets) == 1 and isinstance(a.targets[0], ast.Name) and any(a is y for st in L.body for y in ast.walk(st)):
+                defs.setdefault(a.targets[0].id, []).append(a)
+        for x, ds in sorted(defs.items()):
+            if x in lvars:
+                continue
+            item_derived = any(names_in(d.value) & lvars for d in ds)
+            accumulates = any(x in names_in(d.value) for d in ds) or any(isinstance(g, ast.AugAssign) and norm(g.target) == x for g in ast.walk(L))
+            # the loop variable of an inner loop is rebound by that loop
+            rebound = any(isinstance(g, ast.For) and g is not L and x in {t.id for t in ast.walk(g.target) if isinstance(t, ast.Name)} for g in ast.walk(L))
+            if not item_derived or accumulates or rebound:
+                continue
+            dnodes = {nd.id for d in ds for nd in stmt_nodes(cfg, d)}
+            uses = [u for u in cfg.nodes if inloop(u) and u.id not in dnodes and any(isinstance(y, ast.Name) and y.id == x and isinstance(y.ctx, ast.Load) for e in node_exprs(u) for y in ast.walk(e))]
+            # a definition node that also reads x is not a use-before-def
+            for u in uses:
+                # only where a definition of this iteration CAN reach the use (the current item's value is meant); the
+                # `prev = cur` idiom - use first, redefine afterwards - is a deliberate carry-over and not examined
+                same_iter = any(cfg.can_reach(dn, lambda y, u=u: y is u, avoid=lambda y: y is heads[0], follow_exc=False) is not None for dn in cfg.nodes if dn.id in dnodes)
+                if not same_iter:
+                    continue
+                n += 1
+                stale = cfg.can_reach(heads[0], lambda y, u=u: y is u, avoid=lambda y: y.id in dnodes, follow_exc=False,
+                                      edge_ok=lambda s_, l, d_: not (s_ is heads[0] and not inloop(d_)))
+                rep.check(stale is None, rid, fi.qualname, "`%s` (derived from the loop item `%s`) can be used before it is recomputed for the current item" % (x, ", ".join(sorted(lvars))), fn_where(fi, u.stmt),
+                          "%s: `%s` is recomputed for each `%s` before `%s`" % (fi.name, x, ", ".join(sorted(lvars)), norm_stmt(u.stmt)[:40]),
+                          "%s uses `%s` in `%s` on a path of the loop over `%s` that has not (re)computed it for the current item: `%s` is derived from the loop item, so on that path the value of the PREVIOUS item (or the pre-loop value) is used - e.g. a missing edge length takes over the length of the sibling processed before" % (fi.qualname, x, norm_stmt(u.stmt)[:60], norm(L.target), x))
+    return n
+
+
 def unused_params(fi, ignore=("self", "cls")):
     """Parameters never read in the function body (including nested defs)."""
     used = set()
